@@ -1034,6 +1034,267 @@ class G:
                 main.append(ExprS(Call('显示', [MCall(Num(rng.choice(SMALL_INTS)), [('加', [Num('1')]), ('乘', [Num('2')])])])))
         return Program([], body + main), {}
 
+    # ---- instances of a type: own defaults, in-place changes of scalar properties (C08) --------------
+    # Two input classes on which the UNCHANGED interpreter differs from the spec semantics are kept out of the random stream
+    # (DESIGN §12.8, "instances" paragraph); set to True to see them:
+    #  * a type's default written as a bare name (其量设为基) is stored BY REFERENCE: a later in-place change of that name
+    #    (以基（自增：5）) changes the type's default, so objects created afterwards do not start from the declared default;
+    INST_MUTATE_NAMES_USED_AS_DEFAULTS = False
+    #  * a type defined inside a method body: the second call of that method fails (the type's name is exported twice), and a
+    #    method of such an object cannot be called where the type's name is not visible (error 42).
+    INST_TYPES_DEFINED_INSIDE_METHODS = False
+
+    def inst_program(self):
+        """Types whose default properties are SCALARS (numbers in every notation, numerals as texts, truth values, 空), containers,
+        an object (shared by reference: 新建 copies the reference, like every copy of an object) and expressions over program
+        inputs / method inputs / planted display calls; two or more instances created before and after each change; properties
+        changed IN PLACE (自增 / 自减 on a number, 转换数值 on a text, on items of a default list / dictionary) without ever having
+        been assigned on that object: through 其 inside a method, through `对象之属性` from outside, through a chain, through a linked
+        object, by the constructor; the same with ordinary assignment as the control. After every step every property of every
+        instance, of a fresh instance and the names the defaults were computed from are displayed."""
+        rng = self.rng
+        body = [MARK]
+        ins = {}
+        inputs = []
+        # program inputs are the only names that exist before the (hoisted) type definitions of the program body
+        base = None
+        if rng.random() < 0.4:
+            base = '基'
+            inputs.append(base)
+            ins[base] = rng.choice([2.0, -1.5, 0.0, 10.0, 0.5])
+        tbase = None
+        if rng.random() < 0.25:
+            tbase = '文基'
+            inputs.append(tbase)
+            ins[tbase] = rng.choice(['3*10^2', '12', '5*^-1'])
+        num_lits = ['0', '0', '1', '-3', '0.5', '10', '2*10^3', '1.5E+3', '25*^-2', '9007199254740993', '-0.5', '3.0', '+4']
+        numerals = ['1*10^3', '25*^-2', '2.5*10^2', '12', '-3.5', '1*^3', '007', '0.5', '4*10^-2']
+
+        def num_default(names):
+            k = rng.random()
+            if names and k < 0.3:
+                n = rng.choice(names)
+                return rng.choice([Var(n), Var(n), Bin('+', Var(n), Num('1')), Bin('*', Var(n), Num('2'))])
+            if k < 0.4:
+                return Call('记', [Str('初%d' % self.fresh()), Num(rng.choice(num_lits))])     # evaluated once, when the type is defined
+            if k < 0.47:
+                return MCall(Num(rng.choice(SMALL_INTS)), [(rng.choice(['自增', '自减']), [Num(rng.choice(SMALL_INTS))])])
+            if k < 0.52:
+                return Bin(rng.choice(['+', '-', '*']), Num(rng.choice(SMALL_INTS)), Num(rng.choice(SMALL_INTS)))
+            return Num(rng.choice(num_lits))
+
+        CORE = '芯'
+        body.append(Class(CORE, [('值', Num(rng.choice(['7', '0', '-1'])))],
+                          [Func('增', ['步'], [ExprS(MCall(This('值'), [('自增', [Var('步')])])), Ret(This('值'))])]))
+        types = {}     # name -> dict(ctor=kind, core=bool, made_by=None | factory method)
+
+        def make_type(name, names, tnames):
+            """(class statement, constructor statement or None, description)"""
+            core = rng.random() < 0.6
+            props = [('量', num_default(names)),
+                     ('码', Var(rng.choice(tnames)) if tnames and rng.random() < 0.4 else Str(rng.choice(numerals))),
+                     ('旗', rng.choice([Var('真'), Var('假'), Bin('gt', Num(rng.choice(SMALL_INTS)), Num('0'))])),
+                     ('虚', Var('空')),
+                     ('列', Arr([num_default(names) if rng.random() < 0.3 else Num(rng.choice(SMALL_INTS)) for _ in range(rng.randint(1, 3))])),
+                     ('典', Dict([(Var('a'), Num(rng.choice(SMALL_INTS))), (Var('b'), Str(rng.choice(numerals)))])),
+                     ('伴', Var('空')),
+                     ('芯', New(CORE, []) if core else Var('空'))]
+            rng.shuffle(props)
+            in_place = lambda p, m, a: ExprS(MCall(p, [(m, a)]))
+            methods = [
+                # in place, through 其; the value of the call is the value of the last statement
+                Func('增', ['步'], [in_place(This('量'), '自增', [Var('步')]), Ret(This('量'))]),
+                Func('减', ['步'], [in_place(This('量'), '自减', [Var('步')])]),
+                # the ordinary ways: a new number is stored
+                Func('改量', ['数'], [ExprS(Assign(This('量'), Var('数'))), Ret(This('量'))]),
+                Func('加量', ['步'], [ExprS(Assign(This('量'), Bin('+', This('量'), Var('步')))), Ret(This('量'))]),
+                Func('读码', [], [Ret(MCall(This('码'), [('转换数值', [])]))]),
+                Func('翻旗', [], [ExprS(Assign(This('旗'), Bin('xeq', This('旗'), Var('假')))), Ret(This('旗'))]),
+                Func('增列', ['位', '步'], [in_place(Index(This('列'), Var('位')), '自增', [Var('步')]), Ret(This('列'))]),
+                Func('添列', ['物'], [in_place(This('列'), '后增', [Var('物')]), Ret(Prop(This('列'), '长度'))]),
+                Func('增典', ['步'], [in_place(Index(This('典'), Str('a')), '自增', [Var('步')]),
+                                      in_place(Index(This('典'), Str('b')), '转换数值', []), Ret(This('典'))]),
+                Func('己', [], [Ret(This('自身'))]),
+                Func('伴者', [], [Ret(This('伴'))]),
+                Func('接', ['另'], [ExprS(Assign(This('伴'), Var('另'))), Ret(Var('另'))]),
+                # a method of one object changes ANOTHER object in place, then reads its own property
+                Func('传增', ['步'], [ExprS(Call('显示', [Str('传'), MCall(This('伴'), [('增', [Var('步')])])])), Ret(This('量'))]),
+                Func('全增', ['步'], [ExprS(MCall(This('自身'), [('增', [Var('步')])])), Ret(MCall(This('自身'), [('己', []), ('增', [Var('步')])]))]),
+                Func('芯增', ['步'], [in_place(Prop(This('芯'), '值'), '自增', [Var('步')]), Ret(Prop(This('芯'), '值'))]),
+                Func('虚增', ['步'], [in_place(This('虚'), '自增', [Var('步')]), Ret(This('虚'))])]
+            rng.shuffle(methods)
+            cls = Class(name, props, methods)
+            ck = rng.choice(['none', 'none', 'assign', 'bump', 'bump', 'bump-all', 'partial'])
+            cb = {'assign': [ExprS(Assign(This('量'), Var('初')))],
+                  'bump': [in_place(This('量'), '自增', [Var('初')])],
+                  'bump-all': [in_place(This('量'), '自减', [Var('初')]), in_place(This('码'), '转换数值', []),
+                               in_place(Index(This('列'), Num('1')), '自增', [Var('初')]), in_place(Index(This('典'), Str('a')), '自增', [Var('初')])],
+                  'partial': [If(Bin('gt', Var('初'), Num('0')), [ExprS(Assign(This('量'), Var('初')))],
+                                 els=[in_place(This('量'), '自减', [Num('1')])])]}.get(ck)
+            ctor = Func(name, ['初'], cb, ctor=True) if cb else None
+            types[name] = {'ctor': ck, 'core': core, 'factory': None}
+            return cls, ctor
+
+        names = [base] if base else []
+        tnames = [tbase] if tbase else []
+        cls, ctor = make_type('柜', names, tnames)
+        body.append(cls)
+        if ctor:
+            body.append(ctor)
+        if rng.random() < 0.45:
+            if self.INST_TYPES_DEFINED_INSIDE_METHODS and rng.random() < 0.45:
+                # the type is defined inside a method: its defaults mention the method's own input
+                cls, ctor = make_type('箱', ['底'], [])
+                body.append(Func('造箱', ['底', '初'], [cls] + ([ctor] if ctor else []) +
+                                 [Ret(New('箱', [Var('初')] if ctor else []))]))
+                types['箱']['factory'] = '造箱'
+            else:
+                cls, ctor = make_type('箱', names, tnames)
+                body.append(cls)
+                if ctor:
+                    body.append(ctor)
+        main = []
+        objs = []      # (variable, type)
+        link = {}      # variable -> variable its 伴 holds
+        faults = [1] if rng.random() < 0.05 else []      # at most one deliberate error (it ends the program)
+        own_core = set()
+        assigned_null = set()
+
+        def new_expr(t):
+            d = types[t]
+            a = [Num(rng.choice(['1', '2', '5', '-2', '0']))] if d['ctor'] != 'none' else []
+            if a and objs and rng.random() < 0.15:
+                a = [Prop(Var(rng.choice(objs)[0]), '量')]      # the constructor's argument is another instance's property
+            if d['ctor'] != 'none' and faults and rng.random() < 0.1:
+                faults.pop()
+                a = rng.choice([[], a + [Num('9')]])       # a wrong number of arguments for a declared constructor
+            if d['factory']:
+                return Call(d['factory'], [rng.choice([Num(rng.choice(SMALL_INTS))] + [Var(n) for n in names])] + (a[:1] or [Num('0')]))
+            return New(t, a)
+
+        def create():
+            o = '件%d' % self.fresh()
+            t = rng.choice(list(types))
+            main.append(Decl([o], new_expr(t)))
+            objs.append((o, t))
+
+        ALL = ['量', '码', '旗', '虚', '列', '典']
+
+        def show_all(touched=()):
+            # the properties the last step could have reached, 量, and some of the others — of EVERY instance
+            ps_ = [p for p in ALL if p == '量' or p in touched or rng.random() < 0.3]
+            fs = []
+            for o, t in objs:
+                fs += [Prop(Var(o), p) for p in ps_]
+                if (types[t]['core'] or o in own_core) and ('芯' in touched or rng.random() < 0.4):
+                    fs.append(Prop(Prop(Var(o), '芯'), '值'))
+            main.append(ExprS(Call('显示', fs)))
+            # a fresh instance of every type starts from the declared defaults, whatever happened to the others
+            for t, d in types.items():
+                if rng.random() < (0.7 if d['factory'] is None else 0.3):
+                    q = rng.choice([p for p in ps_ if p != '虚'])
+                    main.append(ExprS(Call('显示', [Str('新'), Prop(new_expr(t), '量')] + ([Prop(new_expr(t), q)] if q != '量' else []))))
+            if (names or tnames) and rng.random() < 0.5:
+                main.append(ExprS(Call('显示', [Var(n) for n in names + tnames])))
+
+        for _ in range(rng.randint(2, 3)):
+            create()
+        if rng.random() < 0.5:
+            show_all(ALL)
+        step = lambda: Num(rng.choice(['1', '2', '3', '10', '-1', '0.5']))
+        for _ in range(rng.randint(3, 8)):
+            o, t = rng.choice(objs)
+            k = rng.random()
+            shown = None
+            touched = ('量',) if k < 0.38 else ('码',) if k < 0.45 else ('列', '典') if k < 0.52 else ('量', '码') if k < 0.72 else \
+                ('量', '码', '列', '旗') if k < 0.80 else ('芯',) if k < 0.88 else ('虚',)
+            if k < 0.10:
+                create()
+            elif k < 0.13 and self.INST_MUTATE_NAMES_USED_AS_DEFAULTS and names:
+                shown = MCall(Var(rng.choice(names)), [(rng.choice(['自增', '自减']), [step()])])
+            elif k < 0.26:
+                shown = MCall(Var(o), [(rng.choice(['增', '增', '减']), [step()])])
+            elif k < 0.38:
+                # from outside, on the property itself
+                shown = MCall(Prop(Var(o), '量'), [(rng.choice(['自增', '自减']), [step()])])
+            elif k < 0.45:
+                shown = rng.choice([MCall(Var(o), [('读码', [])]), MCall(Prop(Var(o), '码'), [('转换数值', [])])])
+            elif k < 0.52:
+                shown = rng.choice([MCall(Var(o), [('增列', [Num('1'), step()])]), MCall(Index(Prop(Var(o), '列'), Num('1')), [('自增', [step()])]),
+                                    MCall(Var(o), [('添列', [step()])]), MCall(Var(o), [('增典', [step()])]),
+                                    MCall(Index(Prop(Var(o), '典'), Str('a')), [('自减', [step()])]),
+                                    MCall(Index(Prop(Var(o), '典'), Str('b')), [('转换数值', [])])])
+            elif k < 0.60:
+                # through a chain: the first link yields the object itself
+                shown = rng.choice([MCall(Var(o), [('己', []), (rng.choice(['增', '减']), [step()])]),
+                                    MCall(Var(o), [('全增', [step()])]),
+                                    MCall(Var(o), [('己', []), ('己', []), ('读码', [])])])
+            elif k < 0.72:
+                # through a linked object
+                if link and rng.random() < 0.6:
+                    o = rng.choice(sorted(link))
+                if o not in link or rng.random() < 0.25:
+                    p = rng.choice(objs)[0]
+                    link[o] = p
+                    shown = MCall(Var(o), [('接', [Var(p)]), ('增', [step()])])
+                else:
+                    shown = rng.choice([MCall(Var(o), [('伴者', []), ('增', [step()])]), MCall(Var(o), [('传增', [step()])]),
+                                        MCall(Prop(Prop(Var(o), '伴'), '量'), [('自增', [step()])]),
+                                        MCall(Prop(Var(o), '伴'), [('减', [step()])])])
+            elif k < 0.75 and len(objs) >= 2:
+                # a value taken from ANOTHER instance's property (by assignment, as an argument) is a copy: the source is then
+                # changed in place
+                p = rng.choice([x for x, _ in objs if x != o])
+                f, m, a = rng.choice([('量', '自增', [step()]), ('量', '自减', [step()]), ('码', '转换数值', [])])
+                main.append(ExprS(rng.choice([Assign(Prop(Var(o), f), Prop(Var(p), f)), Assign(Prop(Var(o), f), Prop(Var(p), f)),
+                                              Call('显示', [MCall(Var(o), [('改量', [Prop(Var(p), '量')])])])])))
+                shown = MCall(Prop(Var(rng.choice([o, p, p])), f), [(m, a)])
+            elif k < 0.80:
+                # the ordinary ways (control): a new value is stored in this object only
+                p = rng.choice(objs)[0]
+                shown = rng.choice([MCall(Var(o), [('改量', [step()])]), MCall(Var(o), [('加量', [step()])]),
+                                    Assign(Prop(Var(o), '量'), step()), Assign(Prop(Var(o), '量'), Prop(Var(p), '量')),
+                                    Assign(Prop(Var(o), '码'), Prop(Var(p), '码')), Assign(Prop(Var(o), '列'), Prop(Var(p), '列')),
+                                    MCall(Var(o), [('翻旗', [])]), Assign(Prop(Var(o), '旗'), Var(rng.choice(['真', '假']))),
+                                    Assign(Prop(Var(o), '码'), Str(rng.choice(numerals)))])
+            elif k < 0.88:
+                # the object default: one 芯 for all instances of the type, until an instance is given its own
+                if types[t]['core'] or o in own_core:
+                    if rng.random() < 0.3:
+                        own_core.add(o)
+                        shown = Assign(Prop(Var(o), '芯'), New(CORE, []))
+                    else:
+                        shown = rng.choice([MCall(Var(o), [('芯增', [step()])]), MCall(Prop(Prop(Var(o), '芯'), '值'), [('自增', [step()])]),
+                                            MCall(Prop(Var(o), '芯'), [('增', [step()])])])
+                else:
+                    own_core.add(o)
+                    shown = Assign(Prop(Var(o), '芯'), New(CORE, []))
+            elif not faults or k < 0.97:
+                # 空 by default, a number once assigned
+                if o in assigned_null:
+                    shown = rng.choice([MCall(Var(o), [('虚增', [step()])]), MCall(Prop(Var(o), '虚'), [('自增', [step()])])])
+                else:
+                    assigned_null.add(o)
+                    shown = Assign(Prop(Var(o), '虚'), step())
+            else:
+                faults.pop()
+                shown = rng.choice([Prop(Var(o), '无此性'), MCall(Var(o), [('无此法', [])]), MCall(Var(o), [('增', [])]),
+                                    MCall(Var(o), [('增', [step(), step()])]), Assign(Prop(Var(o), '无此性'), step())])
+            if shown is not None:
+                main.append(ExprS(Call('显示', [shown])) if not isinstance(shown, Assign) else ExprS(shown))
+            show_all(touched)
+        # the types keep the methods the program uses (and what those use) plus a few of the others
+        text = Program([], main).render(rng)[0]
+        for st in body:
+            for c in ([st] if isinstance(st, Class) else [x for x in getattr(st, 'body', []) if isinstance(x, Class)]):
+                if c.name == CORE:
+                    continue
+                used = {m.name for m in c.methods if '（' + m.name in text}
+                used |= {'增'} if used & {'传增', '全增'} else set()
+                used |= {'己'} if '全增' in used else set()
+                c.methods = [m for m in c.methods if m.name in used or rng.random() < 0.15]
+        return Program(inputs, body + main), ins
+
     # ---- exceptions (C09) --------------------------------------------------------------------------
     def fault_stmt(self):
         """returns (statement, is_thrown_exception_with_known_message)"""
